@@ -25,7 +25,8 @@ ASSUMPTIONS = ['array VALUES are finite and moderate (the statement quantifies o
                'allocations above 1 GiB fail with MemoryError in the workers (ASan max_allocation_size_mb / RLIMIT_AS) — treated as an exception outcome',
                'an AddressSanitizer report counts as "can crash or corrupt the interpreter" even when the plain build happens to survive the access']
 TRUSTED = ['clang 14 AddressSanitizer runtime', 'harness/iso.py worker isolation and wall-clock limit', 'translator/guards.py (guard extraction)']
-EXPLANATION = ('proved in Lean: guards extracted from the current source imply the kernel preconditions (decision logic over argument descriptors); '
+EXPLANATION = ('proved in Lean: wrapper and native guards extracted from the current source imply the kernel preconditions and, composed with C10, in-bounds accesses of the index models; '
+               'every extracted guard exit is an exception or an early successful return (decided over the generated table); '
                'validated only: that no degenerate call crashes, hangs or corrupts the interpreter (isolated ASan workers)')
 
 SRC = {}
